@@ -133,6 +133,11 @@ Cases ==
   CASE Tier = "dev" ->
          FamPresence(0, 14) \cup FamDefault(Shapes4, 1) \cup FamTwoHosts({<<2, 1>>, <<7, 2>>}, {3})
          \cup { Plain(FaultBase2) } \cup FamFaults(FaultBase2) \cup BraceFaults(FaultBase1)
+    [] Tier = "sens" ->        \* the small family of the sensitivity, liveness and vacuity-guard runs: one witness class per deviation
+         FamPresence(0, 14) \cup FamDefault(Shapes4, 1) \cup FamTwoHosts({<<2, 1>>, <<7, 2>>}, {3}) \cup { Plain(FaultBase2) }
+         \cup { x \in FamFaults(FaultBase2) \cup BraceFaults(FaultBase1) :
+                  x.fault.cls \in {"LoneQuote", "TooBig", "MissingOpenBrace", "MissingCloseBrace", "UnterminatedQuote", "OutOfRange",
+                                   "BadNumber", "MissingValue", "NoSuchInclude"} }
     [] Tier = "replay" ->      \* the cases of a replay file (bin/check C15 --replay): Meaning is recomputed, not trusted
          { ReplayRecs(0)[i].ast : i \in 1..Len(ReplayRecs(0)) }
     [] Tier = "quick" ->
@@ -154,6 +159,8 @@ L0 == [ind |-> "", sep |-> " ", cmt |-> "", psep |-> ",", blank |-> FALSE, pre |
 L1 == [ind |-> "    ", sep |-> "    ", cmt |-> " # note \"q\" { }", psep |-> ", ", blank |-> TRUE, pre |-> TRUE]
 L2 == [ind |-> "\t", sep |-> " ", cmt |-> "#x", psep |-> " , ", blank |-> FALSE, pre |-> TRUE]
 LayoutSeq == IF Tier = "thorough" THEN <<L0, L1, L2>> ELSE IF Tier = "quick" THEN <<L0, L1>> ELSE <<L1>>
+\* include splittings tried by LemSplit: every run in the thorough tier; runs of length <= 2 and the whole list otherwise
+SplitRuns(n) == IF Tier = "thorough" THEN Runs(n) ELSE { r \in Runs(n) : r[2] - r[1] <= 1 \/ (r[1] = 1 /\ r[2] = n) }
 
 \* the case table (constant: computed once)
 CaseTab == SetToSeq(Cases)
@@ -194,9 +201,9 @@ LemPermute ==
 \* moving any run of entries into an included file is irrelevant
 LemSplit ==
   Structural => LET m == Meaning(ast)  es == ast.srv.es IN
-           /\ \A r \in Runs(Len(es)) : Meaning(SplitRoot(ast, r[1], r[2])) = m
+           /\ \A r \in SplitRuns(Len(es)) : Meaning(SplitRoot(ast, r[1], r[2])) = m
            /\ \A k \in { k \in 1..Len(es) : IsSection(es[k]) } :
-                 \A r \in Runs(Len(es[k].es)) : Meaning(SplitIn(ast, k, r[1], r[2])) = m
+                 \A r \in SplitRuns(Len(es[k].es)) : Meaning(SplitIn(ast, k, r[1], r[2])) = m
 \* an unknown key or an unknown section anywhere is ignored
 LemUnknown ==
   Structural => LET m == Meaning(ast)  es == ast.srv.es
